@@ -43,7 +43,7 @@ Qed.
 
 Section ScanProofs.
   Context {T : Type}.
-  Variable geb gtb eqb : T -> T -> bool.
+  Variable geb : T -> T -> bool.
   Variable is_nan : T -> bool.
   Variable scale : T -> nat.
   Variable score_position : nat -> res T.
@@ -100,8 +100,9 @@ Section ScanProofs.
 
   (* ----- soundness invariant ----- *)
 
-  (* the shape of the block score matrix: no more rows than the row range *)
-  Hypothesis Hlen : forall a e m, score_rows a e = Ok m -> length m <= e - a.
+  (* the shape of the block score matrix: no more rows than the row range
+     (only asked of the ranges next() and max() can request: a <= e <= R) *)
+  Hypothesis Hlen : forall a e m, a <= e -> e <= R -> score_rows a e = Ok m -> length m <= e - a.
 
   (* Y: hits yielded so far *)
   Record Inv (s : st) (Y : list hit) : Prop := {
@@ -154,7 +155,7 @@ Section ScanProofs.
     destruct (next_block_hits _ _ Hh Hnb) as [He|(d & Hd & He)].
     - split; rewrite He, app_nil_r; auto.
       rewrite Hrow. eapply Forall_impl; [|exact Hr]. simpl; intros; lia.
-    - pose proof (Hlen _ _ _ Hd) as Hl.
+    - assert (Hl : length d <= Nat.min (row s + B) R - row s) by (apply Hlen; auto; lia).
       set (cands := dthreshold d (scale thr)) in *.
       assert (Hfm : forall h, In h (rev (omap (qcand (row s)) cands)) ->
                 good h /\ exists r c, r < length d /\ fst h = c * R + row s + r).
@@ -268,6 +269,20 @@ Section ScanProofs.
     - inversion Hc; subst. simpl. eauto.
   Qed.
 
+  Lemma scan_sound_run fuel H :
+    collect fuel init = Ok H -> Forall good H /\ NoDup (map fst H).
+  Proof.
+    intros Hc. destruct (collect_inv _ _ _ _ Hc Inv_init) as (s' & HI & _).
+    simpl in HI. exact (Inv_yielded _ _ HI).
+  Qed.
+
+  Lemma take_sound_run k H s' :
+    take_k k init = Ok (H, s') -> Forall good H /\ NoDup (map fst H).
+  Proof.
+    intros Ht. pose proof (take_k_inv _ _ _ _ _ Ht Inv_init) as HI.
+    simpl in HI. exact (Inv_yielded _ _ HI).
+  Qed.
+
   (* ----- completeness ----- *)
 
   Variable C : nat.
@@ -282,10 +297,11 @@ Section ScanProofs.
   Hypothesis HB : 1 <= B.
   Hypothesis HLm : Lm <= R * C.
   Hypothesis Hpos : forall i, i < Lm -> score_position i = Ok (score i).
-  Hypothesis Hrows : forall a e, a < e -> e <= R -> score_rows a e = Ok (block_spec a e).
+  Hypothesis Hrows : forall a e, a <= e -> e <= R -> score_rows a e = Ok (block_spec a e).
   Hypothesis Hnan : forall i, i < Lm -> geb (score i) thr = true -> is_nan (score i) = false.
-  (* property C08: a position meeting a threshold reaches the byte threshold *)
-  Hypothesis Hcons : forall i t, i < Lm -> geb (score i) t = true -> scale t <= dscore i.
+  (* property C08, at the scanner's threshold: a position meeting the threshold reaches
+     the byte threshold derived from it *)
+  Hypothesis Hcons : forall i, i < Lm -> geb (score i) thr = true -> scale thr <= dscore i.
 
   Definition qualifies (i : nat) : Prop := i < Lm /\ geb (score i) thr = true.
 
@@ -297,7 +313,7 @@ Section ScanProofs.
     unfold hit_new. rewrite (Hnan _ Hlt Eg). simpl. apply IH.
   Qed.
 
-  Lemma block_range (s : st) : row s < R -> row s < Nat.min (row s + B) R /\ Nat.min (row s + B) R <= R.
+  Lemma block_range (s : st) : row s < R -> row s <= Nat.min (row s + B) R /\ Nat.min (row s + B) R <= R.
   Proof. intros. lia. Qed.
 
   Lemma next_block_total s : row s < R -> exists s', next_block s = Ok s'.
@@ -367,7 +383,7 @@ Section ScanProofs.
       { rewrite Hd, mk_block_length. exact Hre. }
       { rewrite Hd, mk_block_row_length by auto. exact Hc. }
       rewrite Hmx in Hnb. rewrite Hget in Hle.
-      assert (Ht : scale thr <= m) by (pose proof (Hcons i thr Hi Hg); lia).
+      assert (Ht : scale thr <= m) by (pose proof (Hcons i Hi Hg); lia).
       apply Nat.leb_le in Ht. rewrite Ht in Hnb.
       destruct (next_cands _ _ _) as [hs| | |] eqn:En; simpl in Hnb; try discriminate.
       inversion Hnb; subst; simpl. apply next_cands_ok in En. rewrite En.
@@ -464,7 +480,7 @@ Section ScanProofs.
 
   Lemma in_expected h : In h expected <-> qualifies (fst h) /\ snd h = score (fst h).
   Proof.
-    unfold expected. rewrite in_omap. split.
+    clear HB HLm Hpos Hrows Hnan Hcons Hlen. unfold expected. rewrite in_omap. split.
     - intros (i & Hi & Hq). apply in_seq in Hi. destruct (geb (score i) thr) eqn:Eg; [|discriminate].
       inversion Hq; subst; simpl. unfold qualifies. repeat split; auto; lia.
     - intros ((Hi & Hg) & Hs). exists (fst h). split; [apply in_seq; lia|].
@@ -497,6 +513,35 @@ Section ScanProofs.
         destruct (qualifies_coords _ Hq) as (_ & _ & Hm).
         specialize (HI2 (fst h) Hq). rewrite Hh, app_nil_r in HI2.
         destruct h as [i x]; simpl in *; subst. apply HI2. lia.
+  Qed.
+
+  (* ----- assembled results (property C02) ----- *)
+
+  Lemma block_spec_length a e : length (block_spec a e) <= e - a.
+  Proof.
+    clear HB HLm Hpos Hrows Hnan Hcons Hlen.
+    unfold block_spec. destruct (Lm =? 0); [simpl; lia|]. rewrite mk_block_length. lia.
+  Qed.
+
+  Lemma expected_length : length expected <= Lm.
+  Proof. unfold expected. etransitivity; [apply omap_length|]. now rewrite seq_length. Qed.
+
+  Lemma scan_complete_run fuel :
+    Lm < fuel -> exists H, collect fuel init = Ok H /\ Permutation H expected.
+  Proof.
+    intros Hf. destruct (collect_total fuel init [] Inv_init) as (H & Hc); [simpl; lia|].
+    exists H. split; auto.
+    destruct (collect_inv2 _ _ _ _ Hc Inv2_init Inv_init) as (s' & A & A' & Hh & Hr).
+    simpl in A, A'. eapply exhausted_complete; eauto.
+  Qed.
+
+  (* take(k) yields the first k hits of the full iteration, without panicking *)
+  Lemma scan_take_run fuel k :
+    Lm < fuel ->
+    exists H s', collect fuel init = Ok H /\ take_k k init = Ok (firstn k H, s').
+  Proof.
+    intros Hf. destruct (scan_complete_run fuel Hf) as (H & Hc & _).
+    destruct (collect_take _ _ _ k Hc) as (s' & Ht). eauto.
   Qed.
 
 End ScanProofs.
